@@ -12,6 +12,15 @@ def main():
     a = ap.parse_args()
     mod = importlib.import_module("props." + a.pid.lower())
     if a.replay:
+        # a violation found in a non-default build configuration (lib.config_differential) is replayed in that configuration
+        try:
+            import json
+            r = json.load(open(a.replay))
+            if isinstance(r, dict) and r.get("defines"):
+                os.environ["VERIF_EXTRA_DEFINES"] = " ".join(r["defines"])
+                print("replaying in the build configuration %s (%s)" % (r.get("configuration"), os.environ["VERIF_EXTRA_DEFINES"]))
+        except Exception:
+            pass
         sys.exit(mod.replay(a.replay))
     try:
         rc = mod.check(a.tier, a.seed)
